@@ -9,7 +9,7 @@ from ..core import astutil as A
 from ..core.cfg import Cond
 from ..core.index import AnalysisError, FuncInfo
 from ..selftest import M
-from .common import (ext_name, branch_values, may_conds, is_early_exit_guard, TTF_OUTLINE, T, attr_stores, calls_named, check_forwarding, check_plumbing, conds, entails, every_origin, facts,
+from .common import (atoms_of, ext_name, branch_values, may_conds, is_early_exit_guard, TTF_OUTLINE, T, attr_stores, calls_named, check_forwarding, check_plumbing, conds, entails, every_origin, facts,
                      key, need, reached_under, subscript_stores, where)
 from .rounding import is_otround
 
@@ -104,6 +104,7 @@ def run(prog, chk):
     chk.decided += ["the outline compilers generate a glyph only for a name the glyph set lacks (R02.13, shared with C01); the .notdef they add is drawn in the output flavour's contour direction (R02.14)"]
     chk.decided += ["in the static TrueType pipeline mixed glyphs are decomposed, unconditionally, before curves are converted (R02.15)"]
     chk.decided += ["the caller's outline options reach the outline compiler as given (reviewed override table; shared with C01) (R02.17)"]
+    chk.decided += ["ReverseContourDirectionFilter reverses every contour of every glyph that has contours, whatever the glyph looks like: the only glyphs passed over are those without contours (R02.18)"]
     chk.decided += ["the TrueType glyph is the one the glyf pen built: no package code assigns, deletes or edits in place the outline fields of a compiled glyph (coordinates, endPtsOfContours, "
                     "numberOfContours; point flags except the reviewed overlap bit; component flags except the reviewed bits) (R02.16)"]
     chk.not_decided += ["the cu2qu error bound itself", "point-for-point equality", "maxp counts (fontTools recalc)"]
@@ -124,6 +125,7 @@ def run(prog, chk):
     chk.guard(r0214, prog, chk)
     chk.guard(r0215, prog, chk)
     chk.guard(r0216, prog, chk)
+    chk.guard(r0218, prog, chk)
     from .c01 import check_outline_option_overrides
     chk.guard(check_outline_option_overrides, prog, chk, "R02.17")
 
@@ -790,7 +792,53 @@ def r0216(prog, chk):
     chk.minimum("R02.16", 1)
 
 
+# ----------------------------------------------------------------------------- R02.18
+def r0218(prog, chk):
+    ix = prog.ix
+    f = ix.get_method("ufo2ft.filters.reverseContourDirection.ReverseContourDirectionFilter", "filter", own=True)
+    g = f.params()[1]
+
+    def no_contours_test(c):
+        """`not len(g)` / `len(g) == 0` / `not g` holding"""
+        fs = atoms_of(c.test, c.polarity)
+        return any((o == "falsy" and l in (f"len({g})", g)) or (o == "eq" and {l, r} == {f"len({g})", "0"}) for o, l, r in fs)
+    rets = A.returns_of(f.node)
+    early = [r for r in rets if not (isinstance(r.value, ast.Constant) and r.value.value is True)]
+    ok_early = True
+    for r in early:
+        cs = [c for c in conds(prog, f, r) if c.polarity in (True, False)]
+        ok_early = ok_early and len(cs) == 1 and no_contours_test(cs[0])
+    chk.ob("R02.18", f"{f.short}|the only glyphs passed over are those without contours", ok_early and len(early) <= 1, where(f, early[0]) if early else where(f),
+           detail="if not len(glyph): return False",
+           message=f"{f.short} returns without reversing for glyphs that do have contours (`{T(ix.enclosing_stmt(early[-1]).test if early and isinstance(ix.enclosing_stmt(early[-1]), ast.If) else early[-1], 60) if early else ''}`): "
+                   f"those glyphs keep the PostScript direction in a TrueType font while the others are reversed")
+    pens = [c for c in A.body_nodes(f.node) if isinstance(c, ast.Call) and A.callee_name(c) == "ReverseContourPointPen"]
+    draws = [c for c in calls_named(f, "drawPoints")]
+    clears = [c for c in calls_named(f, "clearContours")]
+    ok = len(pens) == 1 and len(draws) == 1 and len(clears) == 1 and T(pens[0].args[0]) == f"{g}.getPointPen()"
+    if ok:
+        loops = [a for a in ix.ancestors(draws[0]) if isinstance(a, ast.For)]
+        ok = len(loops) == 1 and T(draws[0].func.value) in A.target_names(loops[0].target)
+        if ok:
+            # the loop runs over a copy of the contours taken before they are cleared, and nothing inside it is conditional
+            okc, _ = every_origin(prog, f, loops[0].iter, lambda x, ff: isinstance(x, ast.Call) and A.callee_name(x) in ("list", "tuple") and len(x.args) == 1 and T(x.args[0]) == g, allow_const=False)
+            cfg = prog.cfg(f)
+            snap = [d for d in (prog.reaching(f, loops[0].iter.id, loops[0].iter) if isinstance(loops[0].iter, ast.Name) else [])]
+            ok = okc and bool(snap) and all(cfg.dominates(cfg.node_of(d.binder), cfg.node_of(clears[0])) for d in snap) and cfg.dominates(cfg.node_of(clears[0]), cfg.node_of(loops[0])) \
+                and not [c for c in may_conds(prog, f, draws[0]) if c.kind in ("if", "boolop", "ifexp", "while") and not is_early_exit_guard(prog, f, c)] \
+                and not any(isinstance(x, (ast.Continue, ast.Break)) for x in ast.walk(loops[0]))
+            pen_ok, _ = every_origin(prog, f, draws[0].args[0], lambda x, ff: x is pens[0], allow_const=False) if draws[0].args else (False, None)
+            ok = ok and pen_ok
+    chk.ob("R02.18", f"{f.short}|every contour is redrawn through the reversing pen", ok, where(f, draws[0]) if draws else where(f), detail="contours = list(glyph); glyph.clearContours(); for c in contours: c.drawPoints(ReverseContourPointPen(glyph.getPointPen()))",
+           message=f"{f.short}: not every contour of the glyph is redrawn through ReverseContourPointPen")
+    chk.minimum("R02.18", 2)
+
+
 MUTANTS = [
+    M("clockwise glyphs are left as they are by the reversing filter (seeded C02j)", "ufo2ft/filters/reverseContourDirection.py", "ReverseContourDirectionFilter.filter",
+      "pen = ReverseContourPointPen(glyph.getPointPen())", "if sum(len(c) for c in glyph) % 2:\n    return False\npen = ReverseContourPointPen(glyph.getPointPen())", rule="R02.18"),
+    M("only closed contours are reversed", "ufo2ft/filters/reverseContourDirection.py", "ReverseContourDirectionFilter.filter",
+      "contour.drawPoints(pen)", "if contour[0].segmentType != 'move':\n    contour.drawPoints(pen)\nelse:\n    contour.drawPoints(glyph.getPointPen())", rule="R02.18"),
     M("overlap hint set on the second point's flag (mutation scan 3, k=99)", "ufo2ft/instructionCompiler.py", "InstructionCompiler._set_simple_flags", "ttglyph.flags[0] |= flagOverlapSimple", "ttglyph.flags[1] |= flagOverlapSimple", rule="R02.16"),
     M("compiled glyph post-processed: duplicate points dropped (seeded C02i)", "ufo2ft/outlineCompiler.py", "OutlineTTFCompiler.compileGlyphs",
       "ttGlyphs[name] = ttGlyph", "if ttGlyph.numberOfContours > 0 and self.dropImpliedOnCurves:\n    ttGlyph.coordinates = ttGlyph.coordinates[:-1]\n    ttGlyph.flags = ttGlyph.flags[:-1]\n    ttGlyph.endPtsOfContours[-1] -= 1\nttGlyphs[name] = ttGlyph", rule="R02.16"),
